@@ -12,6 +12,7 @@ CONSTANTS
   RichSel <- NoRich
   Script <- NoScript
   EmitMod = 0
+  SimDepth = 38
 INIT MCInit
 NEXT MCNext
 VIEW MCView
